@@ -47,3 +47,51 @@ Example C06_nonvacuous :
   | Fault _ => False
   end.
 Proof. vm_compute. reflexivity. Qed.
+
+(* ---------------------------------------------------------------- with time: the retention timer of a received request
+   (model/Timed.v, parameters read from the source: see C09_timer_sites) *)
+From GoUpf Require TimerGen Timed TimedProofs.
+
+Theorem C06_timer_sites : Timed.source_tparams = Timed.tp_ok.
+Proof. exact TimedProofs.source_tparams_ok. Qed.
+Print Assumptions C06_timer_sites.
+
+(* the window is fixed when the first copy arrives: T * (N+1) after it, whatever responses and duplicates follow *)
+Theorem C06_retention_window_fixed : forall (T : Z) (N : nat) (t0 : Z) evs, forallb Timed.not_fire evs = true ->
+  exists c, Timed.rx_run Timed.source_tparams T N (Timed.rx_create Timed.source_tparams T N t0) evs
+            = Timed.RxHeld (Some (t0 + Timed.rx_window T N)%Z) c.
+Proof. exact TimedProofs.src_rx_due_constant. Qed.
+Print Assumptions C06_retention_window_fixed.
+
+(* inside the window a later copy is answered from the store iff a response was produced, and changes nothing *)
+Theorem C06_duplicate_in_window : forall p T N due c t,
+  Timed.rx_step p T N (Timed.RxHeld due c) (Timed.RxDup t) = (Timed.RxHeld due c, [if c then Timed.ReAnswer t else Timed.Ignore t]).
+Proof. exact TimedProofs.rx_dup_spec. Qed.
+Print Assumptions C06_duplicate_in_window.
+
+(* once the window has elapsed the bookkeeping is released - answered or not *)
+Theorem C06_released_after_window : forall (T : Z) (N : nat) (t0 : Z) evs, forallb Timed.not_fire evs = true ->
+  Timed.rx_run Timed.source_tparams T N (Timed.rx_create Timed.source_tparams T N t0) (evs ++ [Timed.RxFire]) = Timed.RxGone.
+Proof. exact TimedProofs.src_rx_fire_releases. Qed.
+Print Assumptions C06_released_after_window.
+
+(* the variant that arms the timer when the response is sent: an unanswered request is never released *)
+Theorem C06_arm_on_respond_refuted : forall T N t0 evs,
+  forallb (fun e => match e with Timed.RxRespond _ => false | _ => true end) evs = true ->
+  Timed.rx_run (Timed.mkTP true true true true false true true true true true) T N
+               (Timed.rx_create (Timed.mkTP true true true true false true true true true true) T N t0) evs = Timed.RxHeld None false.
+Proof. exact TimedProofs.rx_arm_on_respond_leaks. Qed.
+Print Assumptions C06_arm_on_respond_refuted.
+
+(* an expiry of a SENDER's timer never touches the receive table, even when a receive transaction has the same key
+   (both are "<addr>-<seq>"); the variant posting it as an RX event deletes that entry *)
+Theorem C06_tx_expiry_leaves_receive_table : forall V key (rxm : list (Timed.akey * V)),
+  Timed.tx_expiry_rx_table Timed.source_tparams key rxm = rxm.
+Proof. exact TimedProofs.src_tx_expiry_leaves_rx_all. Qed.
+Print Assumptions C06_tx_expiry_leaves_receive_table.
+
+Theorem C06_tx_expiry_as_rx_refuted :
+  Timed.tx_expiry_rx_table (Timed.mkTP false true true true true true true true true true) "10.0.0.1:8805-7"%string
+                           [("10.0.0.1:8805-7"%string, Timed.RxHeld (Some 100%Z) true)] = [].
+Proof. exact TimedProofs.tx_expiry_as_rx_deletes. Qed.
+Print Assumptions C06_tx_expiry_as_rx_refuted.
